@@ -125,4 +125,7 @@ LARGE_RESPONSES = [
     dict(kind='rsp', fc=0x2B, read_code=3, conformity=0x83, more=0xFF, next_id=0x85,
          objects=[(0, b'v' * 60), (1, b'p' * 60), (2, b'r' * 60), (0x80, b'x' * 50)]),
     dict(kind='rsp', fc=0x11, identifier=bytes(range(249)), run=True),
+    # objects longer than 127 bytes (a length byte with its top bit set), alone and behind a short one
+    dict(kind='rsp', fc=0x2B, read_code=4, conformity=0x83, more=0, next_id=0, objects=[(0x80, b'L' * 200)]),
+    dict(kind='rsp', fc=0x2B, read_code=3, conformity=0x83, more=0xFF, next_id=0x82, objects=[(0x80, b'a' * 5), (0x81, b'M' * 128)]),
 ]
